@@ -359,6 +359,45 @@ func runC03(c *Ctx) {
 				put("resign-same", refcose.CountersignStructure(refcose.PSign1, false, true, pf.Prot, l.protContent, base.ext, pf.Payload, pf.Sig))
 			}
 		}
+		// state carried between calls: verify, edit the payload buffer in place, verify again
+		switch base.kind {
+		case "sign1", "untagged":
+			var m cose.Sign1Message
+			var derr error
+			if base.kind == "sign1" {
+				derr = m.UnmarshalCBOR(base.wire)
+			} else {
+				derr = (*cose.UntaggedSign1Message)(&m).UnmarshalCBOR(base.wire)
+			}
+			if derr == nil && len(m.Payload) > 0 {
+				in := map[string]any{"base": bi, "kind": base.kind, "alg": base.alg, "op": "payload-edited-in-place-between-verifies", "base_wire": mon.FullHex(base.wire)}
+				e1 := m.Verify(base.ext, base.verifiers[0])
+				m.Payload[0] ^= 0x01
+				e2 := m.Verify(base.ext, base.verifiers[0])
+				m.Payload[0] ^= 0x01
+				e3 := m.Verify(base.ext, base.verifiers[0])
+				rec.Eval(3)
+				rec.Class(fmt.Sprintf("%s/payload-edited-in-place/%s", base.kind, base.alg))
+				if e1 != nil || e2 == nil || e3 != nil {
+					rec.Violate("stateful-verify", base.kind+"/payload-edited-in-place", fmt.Sprintf("verify=%v, after in-place payload edit=%v, after restoring=%v (want ok, error, ok)", e1, e2, e3), in)
+				}
+			}
+		case "sign":
+			var m cose.SignMessage
+			if m.UnmarshalCBOR(base.wire) == nil && len(m.Payload) > 0 {
+				in := map[string]any{"base": bi, "kind": base.kind, "alg": base.alg, "op": "payload-edited-in-place-between-verifies", "base_wire": mon.FullHex(base.wire)}
+				e1 := m.Verify(base.ext, base.verifiers...)
+				m.Payload[len(m.Payload)-1] ^= 0x80
+				e2 := m.Verify(base.ext, base.verifiers...)
+				m.Payload[len(m.Payload)-1] ^= 0x80
+				e3 := m.Verify(base.ext, base.verifiers...)
+				rec.Eval(3)
+				rec.Class(fmt.Sprintf("%s/payload-edited-in-place/%s", base.kind, base.alg))
+				if e1 != nil || e2 == nil || e3 != nil {
+					rec.Violate("stateful-verify", base.kind+"/payload-edited-in-place", fmt.Sprintf("verify=%v, after in-place payload edit=%v, after restoring=%v (want ok, error, ok)", e1, e2, e3), in)
+				}
+			}
+		}
 		// other external data / other key
 		for _, e := range [][]byte{nil, {}, {1}, append(append([]byte{}, base.ext...), 0), []byte("other")} {
 			try("external", base.wire, e, base.keys, base.verifiers)
